@@ -1,12 +1,146 @@
 import Driver.Util
-open Drv
+import Faithful.Lib.Ledger
+open Drv Ledger
 
+/-! model side of the C11 line protocol: one answer line per op line.
+
+  node  <Kind> <hex>        decode the bytes as <Kind> with the model of the hand-written decoder (`Fast.decode`, after the
+                            byte parser's resource limits) and with the schema-driven model (`Ref.decode`); print both
+                            observations
+  probe <Kind> <hex>        same (the harness applies no oracle to these lines: non-conforming inputs that validate the
+                            model's error / panic branches)
+  as    <Kind> <hex>        same, outcome classes only (cross-kind decoding)
+  longlist <Kind> <n> <cidhex>   the node of that kind whose link list is n copies of the CID, built as a typed value and
+                            encoded with `Ref.encode`; accepted-by-both iff both models return its observation
+-/
 namespace DrvC11
 
-/-- model side of the C11 line protocol: one answer line per op line -/
+def unhexT (s : String) : Bytes :=
+  if s = "-" then [] else Id.run do
+    let bs := s.toUTF8
+    let n := bs.size / 2
+    let mut out : Array UInt8 := Array.mkEmpty n
+    for i in [0:n] do
+      let a := hexVal (Char.ofNat (bs.get! (2 * i)).toNat)
+      let b := hexVal (Char.ofNat (bs.get! (2 * i + 1)).toNat)
+      out := out.push (UInt8.ofNat (a * 16 + b))
+    return out.toList
+
+def parseKind : String → Option Kind
+  | "Transaction" => some .transaction
+  | "Entry" => some .entry
+  | "Block" => some .block
+  | "Subset" => some .subset
+  | "Epoch" => some .epoch
+  | "Rewards" => some .rewards
+  | "DataFrame" => some .dataFrame
+  | _ => none
+
+def showOpt {α : Type} (f : α → String) : Option α → String
+  | some a => f a
+  | none => "-"
+
+def showCids (l : List Cid) : String := "[" ++ ",".intercalate (l.map hex) ++ "]"
+
+def showDF (d : DataFrameObs) : String :=
+  "{kind=" ++ toString d.kind ++ " hash=" ++ showOpt toString d.hash ++ " index=" ++ showOpt toString d.index ++
+  " total=" ++ showOpt toString d.total ++ " data=" ++ hex d.data ++ " hasnext=" ++ (if d.hasNext then "1" else "0") ++
+  " next=" ++ showOpt showCids d.next ++ "}"
+
+def showObs : Obs → String
+  | .transaction k d m s i => s!"Transaction kind={k} data={showDF d} metadata={showDF m} slot={s} index={showOpt toString i}"
+  | .entry k n h t => s!"Entry kind={k} numHashes={n} hash={hex h} transactions={showCids t}"
+  | .block k s sh e p b h r =>
+    let shs := "[" ++ ",".intercalate (sh.map fun x => s!"{x.entryEndIdx}:{x.shredEndIdx}") ++ "]"
+    s!"Block kind={k} slot={s} shredding={shs} entries={showCids e} parent_slot={p} blocktime={b} block_height={showOpt toString h} rewards={hex r}"
+  | .subset k f l b => s!"Subset kind={k} first={f} last={l} blocks={showCids b}"
+  | .epoch k e s => s!"Epoch kind={k} epoch={e} subsets={showCids s}"
+  | .rewards k s d => s!"Rewards kind={k} slot={s} data={showDF d}"
+  | .dataFrame d => s!"DataFrame {showDF d}"
+
+inductive Res where
+  | ok (o : Obs)
+  | err
+  | panic
+
+def fastRes (k : Kind) (b : Bytes) : Res :=
+  match Cbor.decodeFirst b with
+  | none => .err
+  | some (v, _) =>
+    if !Fast.parserAccepts (Cbor.stats 64 v) then .err else
+    match Fast.decode k v with
+    | .ok n => .ok (obs n)
+    | .err _ => .err
+    | .panic _ => .panic
+
+def refRes (k : Kind) (b : Bytes) : Res :=
+  match Cbor.decodeAll b with
+  | none => .err
+  | some v =>
+    match Ref.decode k v with
+    | .ok n => .ok (obs n)
+    | .error _ => .err
+
+def cls : Res → String
+  | .ok _ => "ok"
+  | .err => "err"
+  | .panic => "panic"
+
+def line (f c : Res) (full : Bool) : String :=
+  if !full then s!"F:{cls f} | C:{cls c}" else
+  let fs := match f with | .ok o => "ok " ++ showObs o | r => cls r
+  let cs := match f, c with
+    | .ok o, .ok o' => if o = o' then "same" else "ok " ++ showObs o'
+    | _, .ok o' => "ok " ++ showObs o'
+    | _, r => cls r
+  s!"F:{fs} | C:{cs}"
+
+def longNode (k : Kind) (n : Nat) (c : Cid) : Option Node :=
+  let l := List.replicate n c
+  match k with
+  | .epoch => some (.epoch ⟨4, 7, l⟩)
+  | .subset => some (.subset ⟨3, 10, 20, l⟩)
+  | .entry => some (.entry ⟨1, 12, [1, 2, 3], l⟩)
+  | .block => some (.block ⟨2, 99, [⟨1, 2⟩], l, ⟨98, 1700000000, some (some 5)⟩, c⟩)
+  | .dataFrame => some (.dataFrame ⟨6, some (some (-5)), some (some 0), some (some 2), [9], some (some l)⟩)
+  | _ => none
+
+def longlist (k : Kind) (n : Nat) (c : Cid) : String :=
+  match longNode k n c with
+  | none => "bad-op"
+  | some node =>
+    if !decide node.WF then "not-wf" else
+    let v := Ref.encode node
+    let f : Res := if !Fast.parserAccepts (Cbor.stats 64 v) then .err else
+      match Fast.decode k v with | .ok m => .ok (obs m) | .err _ => .err | .panic _ => .panic
+    let c : Res := match Ref.decode k v with | .ok m => .ok (obs m) | .error _ => .err
+    match f, c with
+    | .ok a, .ok b => if a = obs node ∧ b = obs node then "accepted-by-both" else "observations-differ"
+    | .ok _, _ => "classic-rejects"
+    | .panic, _ => "fast-panics"
+    | .err, .ok _ => "fast-rejects"
+    | .err, _ => "both-reject"
+
+def step (l : String) : String :=
+  match words l with
+  | ["node", k, h] | ["probe", k, h] =>
+    (match parseKind k with
+     | some k => let b := unhexT h; line (fastRes k b) (refRes k b) true
+     | none => "bad-op")
+  | ["as", k, h] =>
+    (match parseKind k with
+     | some k => let b := unhexT h; line (fastRes k b) (refRes k b) false
+     | none => "bad-op")
+  | ["longlist", k, n, c] =>
+    (match parseKind k with
+     | some k => longlist k n.toNat! (unhexT c)
+     | none => "bad-op")
+  | "case" :: _ => "ok"
+  | _ => "bad-op"
+
 def run (lines : Array String) : IO Unit := do
   let out ← IO.getStdout
-  for _ in lines do
-    out.putStrLn "unimplemented"
+  for l in lines do
+    out.putStrLn (step l)
 
 end DrvC11
